@@ -109,6 +109,82 @@ def unit_zero_size(eng, cmd, nops):
     return r
 
 
+EMIT_CMDS = {"make_bin": ("bin", ".bin"), "make_bk0010_rom": ("bin", ".bin"), "make_raw": ("raw", ""), "make_wav": ("bk_wav", ".wav"), "make_turbo_wav": ("bk_turbo_wav", ".wav")}
+SOURCE_NAMES = {"/src/prog.mac": "/src/prog", "/src/DIR.mac/GAME.MAC": "/src/DIR.mac/GAME", "/src/prog.asm": "/src/prog.asm", "/src/noext": "/src/noext"}
+
+
+def unit_add_emitted(eng, cmd, has_path, has_name, source):
+    """make_bin / make_bk0010_rom / make_raw / make_wav / make_turbo_wav: exactly one output record is added - the directive's own span, its
+    format, the path (the operand resolved against the source file, else the source name with a trailing .mac - any letter case - replaced by
+    the format's extension) and, for tape formats, the 16-byte tape name (the encoded operand, else the last component of the path without
+    .wav; padded with blanks; too long or unencodable is an error)"""
+    fmt, ext = EMIT_CMDS[cmd]
+    wav = fmt.startswith("bk_")
+    name = "%s[path=%s,name=%s,source=%s]" % (cmd, has_path, has_name, source)
+
+    def run(eng):
+        eng.I = {}
+        install_io(eng)
+        ops = []
+        if has_path:
+            t, sp = str_token(eng, "path")
+            ops.append(t)
+            eng.I["path"] = sp
+        if has_name:
+            if not has_path:
+                raise ValueError("a tape name needs a path operand before it")
+            t, sn = str_token(eng, "tape")
+            ops.append(t)
+            eng.I["tape"] = sn
+        comp = compiler_obj(eng, output_charset="CHARSET")
+        eng.I["before"] = list(comp.attrs["emitted_files"])
+        return run_meta(eng, cmd, ops, comp=comp, extra_state={"filename": source})
+
+    def post(eng, o):
+        I = eng.I
+        kind, val = o
+        if kind == "raise":
+            eng.prove("only-RecoverableError-escapes-and-only-after-an-error-report", val.cls == "RecoverableError" and len(errors(eng)) >= 1)
+            return
+        eng.prove("emits-no-bytes", slen(zbytes(val)) == 0)
+        recs = I["comp"].attrs["emitted_files"]
+        eng.prove("exactly-one-output-record-is-added", len(recs) == len(I["before"]) + 1)
+        if len(recs) != len(I["before"]) + 1:
+            return
+        r = recs[-1]
+        insn = I["insn"]
+        eng.prove("the-record-carries-the-directive's-own-span-and-format", r[0] is insn.attrs["ctx_start"] and r[1] is insn.attrs["ctx_end"] and r[2] == fmt and len(r) == (5 if wav else 4))
+        if has_path:
+            want = I["respath"](I["path"], z3.StringVal(source))
+        else:
+            want = z3.StringVal(SOURCE_NAMES[source] + ext)
+        eng.prove("path-is-the-operand-resolved-against-the-source-file-else-the-source-name-with-.mac-replaced-by-the-format's-extension", zs(r[3]) == want)
+        if wav:
+            from pyvc.engine import ENCODERS
+            tape = zbytes(r[4])
+            errs = [e[1] for e in errors(eng)]
+            eng.prove("tape-name-is-exactly-16-bytes", slen(tape) == 16)
+            if has_name and not errs:
+                enc, bad = ENCODERS["CHARSET"]
+                e_ = enc(I["tape"])
+                n_ = z3.Length(e_)
+                eng.prove("tape-name-is-the-operand-in-the-output-charset-padded-with-blanks(only when it fits and is encodable)",
+                          z3.And(z3.Not(bad(I["tape"])), n_ <= 16, z3.Extract(tape, 0, n_) == e_,
+                                 z3.ForAll([z3.Int("k!t")], z3.Implies(z3.And(z3.Int("k!t") >= n_, z3.Int("k!t") < 16), tape[z3.Int("k!t")] == 32))))
+            if not has_name and not has_path and not errs:
+                enc, bad = ENCODERS["CHARSET"]
+                stem = z3.StringVal(SOURCE_NAMES[source].split("/")[-1])
+                e_ = enc(stem)
+                n_ = z3.Length(e_)
+                eng.prove("without-a-name-operand-the-tape-name-is-the-output-file's-name-without-.wav", z3.And(n_ <= 16, z3.Extract(tape, 0, n_) == e_))
+            if errs:
+                eng.prove("a-tape-name-is-refused-only-as-too-long-or-unencodable", all(e in ("too-long-string", "invalid-character") for e in errs))
+    r_ = verify(eng, name, run, post, func="metacommands.%s / add_emitted_%s" % (cmd, "bk_wav" if wav else "file"))
+    for o_ in r_["obligations"]:
+        o_["cfg"] = dict(kind="add_emitted", cmd=cmd, has_path=has_path, has_name=has_name, source=source)
+    return r_
+
+
 def unit_include(eng):
     """.include: the included file's code is what the directive finally produces - its announced size must agree (finding D10: registered with size=0)"""
     def run(eng):
